@@ -95,6 +95,8 @@ pub struct WStats {
     pub hb_cross: u64,
     pub samples: Vec<Value>,
     pub violations: u64,
+    #[serde(default)]
+    pub hash_files: Vec<String>,
 }
 
 impl WStats {
@@ -144,6 +146,7 @@ impl WStats {
             self.samples.truncate(3);
         }
         self.violations += o.violations;
+        self.hash_files.extend(o.hash_files);
     }
 }
 
@@ -343,9 +346,59 @@ pub fn cmd_worker(args: &[String]) -> i32 {
             }
         }
     }
+    // the two hash sets go to sorted binary files next to the build output; the driver merges and deletes them
+    let dir = format!("{}/sim/target/tmp", base_dir());
+    let _ = std::fs::create_dir_all(&dir);
+    for (name, v) in [("nt", &mut st.nontrivial), ("sc", &mut st.sched_hashes)] {
+        v.sort_unstable();
+        v.dedup();
+        let mut bytes = Vec::with_capacity(v.len() * 8);
+        for x in v.iter() {
+            bytes.extend_from_slice(&x.to_le_bytes());
+        }
+        let path = format!("{}/{}-{}-{}-{}.{}", dir, prop, seed, start, std::process::id(), name);
+        std::fs::write(&path, bytes).expect("write hash file");
+        st.hash_files.push(path);
+        v.clear();
+    }
     let mut o = out.lock();
     writeln!(o, "S {}", serde_json::to_string(&st).unwrap()).unwrap();
     0
+}
+
+/// number of distinct u64 in the union of sorted, deduplicated little-endian files
+fn merge_count(files: &[String]) -> u64 {
+    use std::collections::BinaryHeap;
+    use std::cmp::Reverse;
+    use std::io::Read;
+    let mut readers: Vec<std::io::BufReader<std::fs::File>> = Vec::new();
+    for f in files {
+        if let Ok(fh) = std::fs::File::open(f) {
+            readers.push(std::io::BufReader::with_capacity(1 << 16, fh));
+        }
+    }
+    let mut heap: BinaryHeap<Reverse<(u64, usize)>> = BinaryHeap::new();
+    let next = |r: &mut std::io::BufReader<std::fs::File>| -> Option<u64> {
+        let mut b = [0u8; 8];
+        r.read_exact(&mut b).ok().map(|_| u64::from_le_bytes(b))
+    };
+    for (i, r) in readers.iter_mut().enumerate() {
+        if let Some(x) = next(r) {
+            heap.push(Reverse((x, i)));
+        }
+    }
+    let mut last: Option<u64> = None;
+    let mut n = 0u64;
+    while let Some(Reverse((x, i))) = heap.pop() {
+        if last != Some(x) {
+            n += 1;
+            last = Some(x);
+        }
+        if let Some(y) = next(&mut readers[i]) {
+            heap.push(Reverse((y, i)));
+        }
+    }
+    n
 }
 
 pub fn minimise(prop: &str, d: &RunData, vio: &Violation) -> (RunData, Violation, bool) {
@@ -533,12 +586,20 @@ pub fn cmd_check(prop: &str, tier: &str) -> i32 {
         println!("  signature={} index={}", sig, vj["index"]);
         println!("  {}", vj["detail"].as_str().unwrap_or(""));
     }
-    write_evidence(&def, prop, &tier, seed, runs, workers, &total, wall, n_viol, &known_hits);
+    let nt_files: Vec<String> = total.hash_files.iter().filter(|f| f.ends_with(".nt")).cloned().collect();
+    let sc_files: Vec<String> = total.hash_files.iter().filter(|f| f.ends_with(".sc")).cloned().collect();
+    let distinct_nt = merge_count(&nt_files);
+    let distinct_sc = merge_count(&sc_files);
+    for f in total.hash_files.iter() {
+        let _ = std::fs::remove_file(f);
+    }
+    let wall = t0.elapsed().as_secs_f64();
+    write_evidence(&def, prop, &tier, seed, runs, workers, &total, wall, n_viol, &known_hits, distinct_nt, distinct_sc);
     println!(
         "{}: {} runs, {} distinct non-trivial, {} decisions, {:.1}s wall, {} violation(s), {} known finding(s), inconclusive: {:?}",
         prop,
         total.evaluations,
-        total.nontrivial.iter().collect::<BTreeSet<_>>().len(),
+        distinct_nt,
         total.steps_total,
         wall,
         n_viol,
@@ -554,9 +615,7 @@ pub fn cmd_check(prop: &str, tier: &str) -> i32 {
     0
 }
 
-fn write_evidence(def: &check::CheckDef, prop: &str, tier: &str, seed: u64, runs: u64, workers: u64, t: &WStats, wall: f64, n_viol: u64, known_hits: &[String]) {
-    let distinct: BTreeSet<u64> = t.nontrivial.iter().copied().collect();
-    let sched: BTreeSet<u64> = t.sched_hashes.iter().copied().collect();
+fn write_evidence(def: &check::CheckDef, prop: &str, tier: &str, seed: u64, runs: u64, workers: u64, t: &WStats, wall: f64, n_viol: u64, known_hits: &[String], distinct_nt: u64, distinct_sc: u64) {
     let probes: BTreeMap<String, u64> = rt::probe::PROBE_NAMES
         .iter()
         .map(|(id, name)| (name.to_string(), t.probes.get(*id as usize).copied().unwrap_or(0)))
@@ -571,7 +630,7 @@ fn write_evidence(def: &check::CheckDef, prop: &str, tier: &str, seed: u64, runs
         "violations": n_viol,
         "coverage": {
             "evaluations": t.evaluations,
-            "distinct_nontrivial": distinct.len(),
+            "distinct_nontrivial": distinct_nt,
             "rule": def.rule,
             "samples": t.samples,
             "runs_requested": runs,
@@ -587,7 +646,7 @@ fn write_evidence(def: &check::CheckDef, prop: &str, tier: &str, seed: u64, runs
             "decisions_per_run_max": t.steps_max,
             "decisions_per_run_mean": if t.evaluations > 0 { t.steps_total / t.evaluations } else { 0 },
             "operations_total": t.ops_total,
-            "distinct_schedules(event-log hashes)": sched.len(),
+            "distinct_schedules(event-log hashes)": distinct_sc,
             "faults_fired": t.faults,
             "probe_hits": probes,
             "knob_histogram": t.knobs,
@@ -673,16 +732,20 @@ pub fn cmd_selftest(args: &[String]) -> i32 {
             let n: u64 = args[2].parse().unwrap();
             let start: u64 = args.get(3).and_then(|s| s.parse().ok()).unwrap_or(0);
             let seed = DEFAULT_SEED;
-            let mut h = Fnv::default();
+            let tier = std::env::var("VERIF_TIER").unwrap_or("quick".into());
             for i in start..start + n {
+                let mut h = Fnv::default();
                 let rs = run_seed(seed, prop, i);
-                let case = check::make_case(prop, rs, i, "quick");
+                let case = check::make_case(prop, rs, i, &tier);
                 let d = execute(&case, Source::Rng(mix(rs, 0xE)));
                 d.outcome.log_hash.hash(&mut h);
                 history_hash(&d.recs).hash(&mut h);
+                d.outcome.stats.steps.hash(&mut h);
+                d.outcome.clock_ns.hash(&mut h);
                 let (mine, foreign) = check::evaluate(prop, &d);
                 for v in mine.iter().chain(foreign.iter()) {
                     v.sig.hash(&mut h);
+                    v.detail.hash(&mut h);
                 }
                 println!("{} {:#x}", i, h.finish());
             }
